@@ -50,10 +50,18 @@ static std::string sysId(const std::string& f, const json& p, const std::string&
 // URI of an entity as the library names it
 static std::string uriStr(const json& u, const std::string& root) { return sysId(u["s"], u["p"], root); }
 
+static json gWorld;                            // the canary world (array of resources)
 static std::string renderDecls(const json& items) {
     std::string o;
     for (auto& it : items) {
         const std::string k = it["k"], n = it["n"];
+        if (k == "ipe") {                      // internal parameter entity: replacement text = declarations of the pseudo resource at p
+            std::string lit;
+            for (auto& r : gWorld) if (r["p"] == it["p"]) lit = renderDecls(r["items"]);
+            for (auto& ch : lit) { if (ch == '"') ch = '\''; if (ch == '\n') ch = ' '; }
+            o += "<!ENTITY % " + n + " \"" + lit + "\">\n%" + n + ";\n";
+            continue;
+        }
         if (k == "declge") o += "<!ENTITY " + n + " SYSTEM \"" + sysId(it["f"], it["p"], gRoot) + "\">\n";
         else if (k == "pe") o += "<!ENTITY % " + n + " SYSTEM \"" + sysId(it["f"], it["p"], gRoot) + "\">\n%" + n + ";\n";
     }
@@ -123,6 +131,7 @@ static void writeFile(const std::string& path, const std::string& content) {
 static void materialise(const json& world) {
     for (auto& r : world) {
         const std::string k = r["k"];
+        if (k == "ipe") continue;              // replacement text of an internal parameter entity: not a file
         std::string content = k == "dtd" ? renderDecls(r["items"]) : k == "ge" ? renderContent(r["items"], true) : renderXsd(r);
         if (k == "dtd" && content.empty()) content = "<!-- empty -->\n";
         std::string rel = joinSegs(r["p"]);
@@ -304,7 +313,18 @@ static std::string handleExp(const std::string& line, std::string& stat, bool& t
     };
     std::string dtd;
     int k = 0;
-    for (auto& d : c["defs"]) { k++; dtd += "<!ENTITY e" + std::to_string(k) + " \"" + val(d, std::string(1, char('a' + k - 1))) + "\">\n"; }
+    std::vector<std::string> extFiles;         // "@R/e<k>.xml" of the entities the case makes external: their replacement text is in a file
+    for (auto& d : c["defs"]) {
+        k++;
+        bool isExt = false;
+        if (c.contains("ext")) for (auto& x : c["ext"]) if (x.get<int>() == k) isExt = true;
+        std::string name = "e" + std::to_string(k), text = val(d, std::string(1, char('a' + k - 1)));
+        if (isExt) {
+            writeFile(gRoot + "/" + name + ".xml", text);
+            extFiles.push_back("open file @R/" + name + ".xml");
+            dtd += "<!ENTITY " + name + " SYSTEM \"" + name + ".xml\">\n";
+        } else dtd += "<!ENTITY " + name + " \"" + text + "\">\n";
+    }
     std::string out;
     bool first = true;
     for (auto& site : c["sites"]) for (auto& scn : c["scns"]) for (auto& api : c["apis"]) {
@@ -318,6 +338,7 @@ static std::string handleExp(const std::string& line, std::string& stat, bool& t
         pc.scanner = scannerName(scn);
         pc.entityRefs = true;
         pc.validation = 0;
+        pc.sysId = gRoot + "/doc.xml";          // base of the external entities of the case
         int lim = c["lim"];
         SecurityManager sm;
         if (lim >= 0) sm.setEntityExpansionLimit((XMLSize_t)lim);
@@ -354,7 +375,8 @@ static std::string handleExp(const std::string& line, std::string& stat, bool& t
             bad = "entity references started: implementation " + std::to_string(started) + ", specification " + std::to_string(expStarted);
         else if (expFatal == "none" && st == "content" && text != expText) bad = "text delivered differs: '" + text + "' vs '" + expText + "'";
         else if (expFatal == "none" && st != "content" && attr != expText) bad = "attribute value differs: '" + attr + "' vs '" + expText + "'";
-        if (!gLog.empty()) bad = "a parse of an in-memory document with internal entities only touched a resource: " + gLog[0];
+        for (auto& ev : gLog)                    // nothing but the files of the case's external entities may be touched
+            if (std::find(extFiles.begin(), extFiles.end(), ev) == extFiles.end()) bad = "a resource that is not an external entity of the document was touched: " + ev;
         if (gObs) emit({{"t", "obs"}, {"doc", docText}, {"site", st}, {"scn", scn}, {"api", api}, {"lim", lim}, {"started", started}, {"fatal", fatal},
                         {"text", text}, {"attr", attr}, {"msgs", r.messages}, {"exc", r.exception}});
         stat += std::string(first ? "cases\t" : "") + "runs\tsite:" + st + "\tscn:" + scn.get<std::string>() + "\tefatal:" + expFatal + "\t";
@@ -362,7 +384,7 @@ static std::string handleExp(const std::string& line, std::string& stat, bool& t
         if (bad.empty()) continue;
         stat += "mismatches\t";
         json cls = {{"binder", "expansion"}, {"site", st}, {"scn", scn}, {"got_fatal", fatal}, {"expected_fatal", expFatal},
-                    {"limit", lim < 0 ? "none" : "set"}, {"what", bad.substr(0, bad.find(':'))}};
+                    {"limit", lim < 0 ? "none" : "set"}, {"external", !extFiles.empty()}, {"what", bad.substr(0, bad.find(':'))}};
         json m = {{"t", "mismatch"}, {"cls", cls}, {"why", bad},
                   {"case", {{"mode", "e"}, {"doc_text", docText}, {"site", st}, {"scn", scn}, {"api", api}, {"lim", lim}, {"expected_started", expStarted},
                             {"got_started", started}, {"expected_fatal", expFatal}, {"got_fatal", fatal}, {"messages", r.messages}, {"line", line}}}};
@@ -387,6 +409,7 @@ int main(int argc, char** argv) {
         ss << f.rdbuf();
         world = json::parse(ss.str(), nullptr, false);
         if (world.is_discarded() || !world.is_array()) { fprintf(stderr, "bad world file %s\n", argv[2]); return 2; }
+        gWorld = world;
         materialise(world);
     }
     Supervisor sup;
